@@ -1,7 +1,7 @@
 (* C09 - Triangle subdivision tiles the original surface. Statements only. *)
 From Coq Require Import List Arith QArith Qcanon Reals Qreals.
 From BZ Require Import Base.Ops Base.QcInst Base.RInst Model.Curve Model.Triangle Model.TrianglePy
-  Gen.PyTriangleHelpers Theory.TriBlossom Theory.TriTables Theory.TriLink Theory.TriLink2.
+  Gen.PyTriangleHelpers Theory.TriBlossom Theory.TriTables Theory.TriLink Theory.TriLink2 Model.CurvePy Gen.F90Const Theory.Twins.
 Import ListNotations.
 
 (* blossoming theorem for triangles (index-function level): the net of blossom values
@@ -61,3 +61,17 @@ Theorem C09_de_casteljau_is_bernstein :
   tri_dc_eval K d v (l1, l2, l3) = tri_bernstein K d v l1 l2 l3.
 Proof. exact @tri_dc_eval_is_bernstein. Qed.
 Print Assumptions C09_de_casteljau_is_bernstein.
+
+(* the closed forms hard-coded in triangle.f90 subdivide_nodes (degrees 1 .. 4, four sub-triangles each), evaluated symbolically by
+   the translator from the Fortran text, ARE the Python tables - which are the blossom quarters (tables = generic, above); other
+   degrees call specialize_triangle *)
+Theorem C09_compiled_closed_forms_are_the_python_tables :
+  forallb (fun e => match lookup (fst e) tri_subdivide_dispatch with
+                    | Some (A, B, C, D) =>
+                        let '(A', B', C', D') := snd e in
+                        qmat_eqb A' A && qmat_eqb B' B && qmat_eqb C' C && qmat_eqb D' D
+                    | None => false
+                    end) f90_triangle_subdivide_closed_forms = true
+  /\ map fst f90_triangle_subdivide_closed_forms = map fst tri_subdivide_dispatch.
+Proof. exact compiled_triangle_subdivision_closed_forms_are_the_python_tables. Qed.
+Print Assumptions C09_compiled_closed_forms_are_the_python_tables.
